@@ -106,7 +106,15 @@ ElemFallback::startElement(StylesheetExecutionContext&      executionContext) co
 }
 
 
-    
+
+void
+ElemFallback::endElement(StylesheetExecutionContext&    executionContext) const
+{
+    endExecuteChildren(executionContext);
+}
+
+
+
 const ElemTemplateElement*
 ElemFallback::getFirstChildElemToExecute(
             StylesheetExecutionContext& executionContext) const
